@@ -329,6 +329,7 @@ pub fn execute(plan: CheckPlan) -> i32 {
             "fault_sites_sample": total.sites.iter().take(40).collect::<Vec<_>>(),
             "probes": total.probes,
             "trace_hash": format!("{:016x}", total.trace_hash),
+            "slowest_scenario": total.slowest.as_ref().map(|(ms, l)| json!({"thread_cpu_ms": ms, "label": l, "hang_budget_cpu_s": plan.opts.cpu_budget_s})),
             "known_findings_hit": known_hits,
             "components_real": ["parser", "type checker", "overload resolution", "evaluator", "all native builtins", "std library written in xray"],
             "components_stub": ["output sink (SimWriter)", "random source (SimRng)", "wall clock (SimClock)", "monotonic clock (verif::Instant)", "sleep (verif::thread)", "hasher keys (SimHashState)", "scope-id skips"],
